@@ -9,6 +9,7 @@ import Just.Model.Dotenv
 import Just.Model.Unstable
 import Just.Model.Analyzer
 import Just.Model.Listing
+import Just.Model.Imports
 open Lean
 
 namespace Just.Run
@@ -168,3 +169,10 @@ partial def modFromJson (j : Json) : Except String Mod := do
   let subs ← subsJ.toList.mapM modFromJson
   return .mk name recipes aliases subs
 end Just.Listing
+
+namespace Just.Imports
+deriving instance FromJson, ToJson for Item
+deriving instance FromJson, ToJson for File
+deriving instance ToJson for Err
+deriving instance ToJson for Def
+end Just.Imports
